@@ -28,6 +28,7 @@ import signal
 
 import common
 import pyfacts
+import srcobl
 from yaql.language import exceptions as yexc
 from yaql.language import expressions as ex
 from yaql.language import utils as yutils
@@ -36,7 +37,7 @@ from yaql import yaqlization
 import yaql
 
 ID = 'C07'
-LEAN_MODULES = ['Yaql.Props.C07', 'Yaql.Props.C07Gen']
+LEAN_MODULES = ['Yaql.Props.C07', 'Yaql.Props.C07Gen'] + srcobl.modules('C07')   # Props/SrcYaqlized
 REQUIRED_THEOREMS = [
     'Yaql.Props.C07.underscore_denied', 'Yaql.Props.C07.underscore_denied_access',
     'Yaql.Props.C07.whitelist_exact', 'Yaql.Props.C07.blacklist_exact',
@@ -51,7 +52,7 @@ REQUIRED_THEOREMS = [
     'Yaql.Props.C07Gen.no_format_templates', 'Yaql.Props.C07Gen.yaqlized_rows',
     'Yaql.Props.C07Gen.yaqlized_flags_match', 'Yaql.Props.C07Gen.yaqlized_checker_probes_only',
     'Yaql.Props.C07Gen.scan_sees_uses', 'Yaql.Props.C07Gen.gate_generated',
-]
+] + srcobl.theorems('C07')
 TRUSTED = [
     'AST scan harness/gens/hostfacts.py (classification of parameter types by running their check on opaque '
     'probes; syntactic use facts with alias / guard / callee following; list of callees that do no named member '
@@ -1290,7 +1291,8 @@ def lexer_guard(res, hist):
 
 def generate():
     info = pyfacts.run(['HostFacts'])['HostFacts']
-    return dict(hostfacts_rows=info['rows'], hostfacts_type_rows=info['type_rows'],
+    src = srcobl.generate('C07')        # re-translate _match_name_to_entry / _validate_name / _remap_name
+    return dict(_broken=src.get('_broken', []), src=src.get('src'), hostfacts_rows=info['rows'], hostfacts_type_rows=info['type_rows'],
                 function_definitions=info['function_definitions'], keyword_regex=info['keyword_regex'],
                 open_rows=info['open_rows'], open_touching=info['open_touching'],
                 yaqlized_rows=info['yaqlized_rows'])
@@ -1306,6 +1308,9 @@ def run(env, res):
                 'of each other; non-trivial = the settings have a whitelist, blacklist or remapping')
     if env['replay']:
         rp = json.load(open(env['replay']))['case']
+        if 'src_target' in (rp or {}):
+            srcobl.differential(env, res, 'C07')
+            return res
         if rp.get('part') == 'B':
             if rp.get('after_auto'):
                 warm = common.Result()
@@ -1325,6 +1330,7 @@ def run(env, res):
         else:
             res.extra['sweep_histogram'] = run_sweep(env, res)
         return res
+    srcobl.differential(env, res, 'C07')      # _match_name_to_entry / _validate_name / _remap_name vs translation vs model
     hb = run_settings(env, res)
     bystander(res, hb)
     lexer_guard(res, hb)
